@@ -109,9 +109,9 @@ func (fr *Frame) execInstr(ins ssa.Instruction, pc string, st *State) string {
 		switch u := x.X.Type().Underlying().(type) {
 		case *types.Slice:
 			s := fr.v1(x.X)
-			pc = fr.safety("index", ins, pc, fmt.Sprintf("(and (<= 0 %s) (< %s (s.len %s)))", idx, idx, s))
-			fr.locs[x] = &Loc{heap: d.sliceHeap(u.Elem()), idx: fmt.Sprintf("(s.arr %s)", s), ty: u.Elem(),
-				path: []pathElem{{field: -1, index: fmt.Sprintf("(+ (s.off %s) %s)", s, idx), elemT: u.Elem()}}}
+			pc = fr.safety("index", ins, pc, fmt.Sprintf("(and (<= 0 %s) (< %s %s))", idx, idx, slLen(s)))
+			fr.locs[x] = &Loc{heap: d.sliceHeap(u.Elem()), idx: slArr(s), ty: u.Elem(),
+				path: []pathElem{{field: -1, index: slIdx(s, idx), elemT: u.Elem()}}}
 		case *types.Pointer:
 			arr := u.Elem().Underlying().(*types.Array)
 			pc = fr.safety("index", ins, pc, fmt.Sprintf("(and (<= 0 %s) (< %s %d))", idx, idx, arr.Len()))
@@ -231,7 +231,7 @@ func (fr *Frame) execInstr(ins ssa.Instruction, pc string, st *State) string {
 		ref := fr.alloc(st)
 		elem := x.Type().Underlying().(*types.Slice).Elem()
 		h := d.sliceHeap(elem)
-		vc.stSet(st, h, fmt.Sprintf("(store %s %s ((as const (Array Int %s)) %s))", vc.stGet(st, h), ref, d.sortOf(elem), d.zero(elem)))
+		vc.stSet(st, h, fmt.Sprintf("(store %s %s %s)", vc.stGet(st, h), ref, d.constArray("Int", d.sortOf(elem), d.zero(elem))))
 		ln, cp := fr.v1(x.Len), fr.v1(x.Cap)
 		pc = fr.safety("makeslice", ins, pc, fmt.Sprintf("(and (<= 0 %s) (<= %s %s))", ln, ln, cp))
 		fr.set(x, x.Type(), fmt.Sprintf("(mk-slice %s 0 %s %s)", ref, ln, cp))
